@@ -95,13 +95,15 @@ def impl(case):
     edges = [tuple(e) for e in case['edges']]
     try:
         g = BipartiteGraph(case['nu'], case['nv'], edges)
-        m = HopcroftKarp(g)()
+        hk = HopcroftKarp(g)
+        m = hk()
+        m2 = hk()          # the solver object may be invoked again: it resets its own state
         uc, vc = minimum_vertex_cover(g)
     except RecursionError:
         return {'error': 'RecursionError'}
     except Exception as e:
         return {'error': type(e).__name__}
-    return {'matching': [[int(u), int(v)] for u, v in m], 'uc': [int(x) for x in uc], 'vc': [int(x) for x in vc]}
+    return {'matching': [[int(u), int(v)] for u, v in m], 'matching2': [[int(u), int(v)] for u, v in m2], 'uc': [int(x) for x in uc], 'vc': [int(x) for x in vc]}
 
 
 def _max_matching_size(nu, nv, edges):
@@ -140,6 +142,9 @@ def prop(case, r):
     best = _max_matching_size(nu, nv, eset)
     if len(m) != best:
         msgs.append('matching size %d but maximum is %d' % (len(m), best))
+    m2 = [tuple(p) for p in r.get('matching2', r['matching'])]
+    if any(p not in eset for p in m2) or len({u for u, _ in m2}) != len(m2) or len({v for _, v in m2}) != len(m2) or len(m2) != best:
+        msgs.append('second invocation of the same solver object returns an invalid or non-maximum matching (size %d, maximum %d)' % (len(m2), best))
     uc, vc = r['uc'], r['vc']
     if any(not (0 <= u < nu) for u in uc) or any(not (0 <= v < nv) for v in vc):
         msgs.append('cover vertex out of range')
@@ -155,11 +160,15 @@ def coq(case, r):
         # the model never raises; a raising implementation can only agree with a model that runs out of fuel
         return 'match run %s %s %s with (Some _, Some _) => false | _ => true end' % (
             E.nat(case['nu']), E.nat(case['nv']), E.lst([E.pair(E.z(u), E.z(v)) for u, v in case['edges']]))
-    return 'check_run %s %s %s %s %s %s' % (
+    t = 'check_run %s %s %s %s %s %s' % (
         E.nat(case['nu']), E.nat(case['nv']),
         E.lst([E.pair(E.z(u), E.z(v)) for u, v in case['edges']]),
         E.lst([E.pair(E.z(u), E.z(v)) for u, v in r['matching']]),
         E.zlist(r['uc']), E.zlist(r['vc']))
+    # the model is a pure function: a re-invocation returns the same matching
+    t += ' && zzlist_eqb %s %s' % (E.lst([E.pair(E.z(u), E.z(v)) for u, v in r['matching']]),
+                                   E.lst([E.pair(E.z(u), E.z(v)) for u, v in r.get('matching2', r['matching'])]))
+    return t
 
 
 def coq_diag(case, r):
